@@ -114,6 +114,89 @@ class Facts:
         r = [b for b in self.hir if b["crate"] == crate and b["name"] == name and not b.get("mac")]
         return r
 
+    def rename_fields(self, struct_name, mapping):
+        """mapping: {field name of `struct_name` on this tree: reference name}. Rewrites the struct item, HIR field nodes, MIR place
+        projections / renderings / aggregate field lists and capture names in place."""
+        if not mapping:
+            return
+        pats = [(re.compile(r"(?<=\.)%s\b" % re.escape(o)), n) for o, n in mapping.items()]
+
+        def fix(v):
+            for pat, n in pats:
+                v = pat.sub(n, v)
+            return v
+
+        def rec(x):
+            if isinstance(x, dict):
+                if x.get("k") == "Field" and x.get("name") in mapping:
+                    x["name"] = mapping[x["name"]]
+                if x.get("k") in ("Struct", "PStruct") and str(x.get("adt") or "").split("::")[-1].split("<")[0] == struct_name:
+                    for f in x.get("fields") or []:
+                        if isinstance(f, dict) and f.get("name") in mapping:
+                            f["name"] = mapping[f["name"]]
+                if x.get("rk") == "agg" and str(x.get("adt") or "").split("::")[-1].split("<")[0] == struct_name and isinstance(x.get("fields"), list):
+                    x["fields"] = [mapping.get(f, f) for f in x["fields"]]
+                for k, v in x.items():
+                    if isinstance(v, str):
+                        if k in ("s", "upvar", "place", "name") and "." in v:
+                            x[k] = fix(v)
+                    elif isinstance(v, list) and k == "p":
+                        x[k] = [fix(e) if isinstance(e, str) else e for e in v]
+                        for e in v:
+                            rec(e)
+                    else:
+                        rec(v)
+            elif isinstance(x, list):
+                for y in x:
+                    rec(y)
+        for b in self.hir + self.mir:
+            rec(b)
+        for it in self.items:
+            if it.get("kind") == "struct" and it["path"].split("::")[-1].split("<")[0] == struct_name:
+                for f in it["variants"][0]["fields"]:
+                    if f["name"] in mapping:
+                        f["name"] = mapping[f["name"]]
+        self._index()
+
+    def rename_variants(self, enum_path, mapping):
+        """present the variants of a local enum under other names (an Option-shaped enum as None / Some)"""
+        pats = [(re.compile(r"\bas %s\b" % re.escape(o)), "as " + n) for o, n in mapping.items()]
+
+        def rec(x):
+            if isinstance(x, dict):
+                if x.get("adt") == enum_path:
+                    if x.get("variant") in mapping:
+                        x["variant"] = mapping[x["variant"]]
+                    if isinstance(x.get("variants"), list):
+                        x["variants"] = [[v[0], mapping.get(v[1], v[1])] for v in x["variants"]]
+                for k, v in x.items():
+                    if isinstance(v, str):
+                        if k in ("s", "upvar", "place") and " as " in v:
+                            for pat, n in pats:
+                                v = pat.sub(n, v)
+                            x[k] = v
+                    elif isinstance(v, list) and k == "p":
+                        nv = []
+                        for e in v:
+                            if isinstance(e, str):
+                                for pat, n in pats:
+                                    e = pat.sub(n, e)
+                            else:
+                                rec(e)
+                            nv.append(e)
+                        x[k] = nv
+                    else:
+                        rec(v)
+            elif isinstance(x, list):
+                for y in x:
+                    rec(y)
+        for b in self.hir + self.mir:
+            rec(b)
+        for it in self.items:
+            if it.get("kind") == "enum" and it["path"] == enum_path:
+                for v in it["variants"]:
+                    v["name"] = mapping.get(v["name"], v["name"])
+
     def struct_fields(self, path_suffix, crate=VISITOR_CRATE):
         for it in self.items:
             if it["crate"] == crate and it.get("kind") == "struct" and it["path"].split("::")[-1].split("<")[0] == path_suffix:
